@@ -1,5 +1,5 @@
 """C03 - a call changes only what is random in it; everything else acts as a constant."""
-from .. import engine, fam_mc, fam_hist, fam_expr
+from .. import engine, fam_mc, fam_hist, fam_expr, fam_tree
 
 LEVEL = "model_checking"
 
@@ -7,6 +7,8 @@ LEVEL = "model_checking"
 def run(tier, seed, limit=0):
     chk = engine.Check("C03", tier, seed)
     scs = fam_hist.family_H(tier, seed) + fam_expr.family_N(tier, seed, per_kind=3 if tier == "quick" else 20)
+    # three-level trees with random / non-random members and object lists: non-random members and everything below them
+    scs += fam_tree.family_T(tier, seed, n=8 if tier == "quick" else 100, probes=True, tag="T03") + fam_tree.family_nonrand_member(tier, seed)
     mc_scs, sim_states = fam_mc.family_mc(tier, seed)          # TLC-generated behaviours of MC_VscRand, replayed
     scs = scs + mc_scs
     chk.extra_cov["tlc_generated_histories_replayed"] = len(mc_scs)
@@ -16,5 +18,6 @@ def run(tier, seed, limit=0):
     chk.run_scenarios(scs, "Trace_VscRand")
     chk.run_mc("MC_VscRand", {"MaxLevel": 4 if tier == "quick" else 6}, workers=12, label="A-level API machine on world W-flags")
     chk.run_mc("B_UsedRand", {"MaxLevel": 4 if tier == "quick" else 6}, label="is_used_rand mechanics |= UsedRand")
-    return chk.finish(LEVEL, "histories over world W-mix (sets, rand_mode toggles, rangelist/list edits, 5 call kinds, probes) + family N",
+    return chk.finish(LEVEL, "histories over world W-mix (sets, rand_mode toggles, rangelist/list edits, 5 call kinds, probes) + family N + tree histories "
+                      "(random / non-random members at three levels, object lists)",
                       ["TLC 1.8; BV/Expr reference semantics; world->DSL compiler"])
